@@ -276,17 +276,14 @@ theorem withUseCur_sec (f : St → St) (hf : ∀ s, s.c.inTracingSection = true 
   have h2 := hf _ h1.2
   exact Sec.trans h1 (Sec.trans h2 (Sec.upd rfl (by simpa using h2.2)))
 
-theorem reopenAfterClose_sec (cfg : Cfg) (d : DST) (erSize : Nat) (s : St) (h : s.c.inTracingSection = true) :
-    Sec s (reopenAfterClose cfg d erSize s).2 := by
+theorem reopenAfterClose_sec (cfg : Cfg) (d : DST) (s : St) (h : s.c.inTracingSection = true) :
+    Sec s (reopenAfterClose cfg d s).2 := by
   unfold reopenAfterClose
   simp only
   have h1 := cbFull_sec s h
   split
   · exact Sec.trans h1 (noSpace_sec _ _ h1.2)
-  · have h2 := withUseCur_sec (cbOpen cfg d) (cbOpen_sec cfg d) _ h1.2
-    split
-    · exact Sec.trans h1 h2
-    · exact Sec.trans h1 (Sec.trans h2 (Sec.trans (Sec.ev .assertFail h2.2 trivial) (Sec.upd rfl (by simpa using h2.2))))
+  · exact Sec.trans h1 (withUseCur_sec (cbOpen cfg d) (cbOpen_sec cfg d) _ h1.2)
 
 theorem reserveTail_sec (cfg : Cfg) (d : DST) (erSize : Nat) (s : St) (h : s.c.inTracingSection = true) :
     Sec s (reserveTail cfg d erSize s).2 := by
@@ -295,11 +292,11 @@ theorem reserveTail_sec (cfg : Cfg) (d : DST) (erSize : Nat) (s : St) (h : s.c.i
   · exact Sec.refl h
   · split
     · have h1 := withUseCur_sec (cbClose cfg d) (cbClose_sec cfg d) _ h
-      exact Sec.trans h1 (reopenAfterClose_sec cfg d erSize _ h1.2)
+      exact Sec.trans h1 (reopenAfterClose_sec cfg d _ h1.2)
     · exact Sec.refl h
 
-theorem reserve_sec (cfg : Cfg) (d : DST) (erSize : Nat) (s : St) (h : s.c.inTracingSection = true) :
-    Sec s (reserve cfg d erSize s).2 := by
+theorem reserve_sec (cfg : Cfg) (d : DST) (erSize emptySize : Nat) (s : St) (h : s.c.inTracingSection = true) :
+    Sec s (reserve cfg d erSize emptySize s).2 := by
   unfold reserve
   split
   · exact noSpace_sec _ _ h
@@ -475,23 +472,26 @@ theorem traceWrite_sec (cfg : Cfg) (d : DST) (e : ERT) (args : Args) (s : St) (h
     · rename_i hh; exact ⟨hall.1, fun hc => by rw [hh] at hc; cases hc⟩
     · exact ⟨hall.1.trans (Ext.of_log_eq rfl), fun _ => rfl⟩
 
-theorem traceAfterReserve_sec (cfg : Cfg) (d : DST) (e : ERT) (args : Args) (r : Bool × St)
+theorem traceAfterReserve_sec (cfg : Cfg) (d : DST) (e : ERT) (args : Args) (erAt erSize : Nat) (r : Bool × St)
     (h : r.2.c.inTracingSection = true) :
-    Ext PSec r.2 (traceAfterReserve cfg d e args r) ∧
-    ((traceAfterReserve cfg d e args r).halted = false → (traceAfterReserve cfg d e args r).c.inTracingSection = false) := by
+    Ext PSec r.2 (traceAfterReserve cfg d e args erAt erSize r) ∧
+    ((traceAfterReserve cfg d e args erAt erSize r).halted = false →
+      (traceAfterReserve cfg d e args erAt erSize r).c.inTracingSection = false) := by
   unfold traceAfterReserve
   split
   · rename_i hh; exact ⟨Ext.refl _ _, fun hc => by rw [hh] at hc; cases hc⟩
   · split
     · exact ⟨Ext.of_log_eq rfl, fun _ => rfl⟩
-    · exact traceWrite_sec cfg d e args r.2 h
+    · split
+      · exact ⟨(noSpace_sec true r.2 h).1.trans (Ext.of_log_eq rfl), fun _ => rfl⟩
+      · exact traceWrite_sec cfg d e args r.2 h
 
 theorem traceEnabled_sec (cfg : Cfg) (d : DST) (e : ERT) (args : Args) (s0 : St) (h : s0.c.inTracingSection = true) :
     Ext PSec s0 (traceEnabled cfg d e args s0) ∧
     ((traceEnabled cfg d e args s0).halted = false → (traceEnabled cfg d e args s0).c.inTracingSection = false) := by
   unfold traceEnabled
-  have h1 := reserve_sec cfg d (erSizeAt d e args s0.c.at_) s0 h
-  have h2 := traceAfterReserve_sec cfg d e args _ h1.2
+  have h1 := reserve_sec cfg d (erSizeAt d e args s0.c.at_) (erSizeAt d e args s0.c.offContent) s0 h
+  have h2 := traceAfterReserve_sec cfg d e args s0.c.at_ (erSizeAt d e args s0.c.at_) _ h1.2
   exact ⟨h1.1.trans h2.1, h2.2⟩
 
 /-- C16, second and third clause: from the test of the enable flag on, everything a tracing call logs
